@@ -18,7 +18,7 @@
    L-suffixed decimals saturated, 010L was decimal, and 1e999 was stored as infinity (F11). *)
 From Coq Require Import List ZArith Bool.
 Import ListNotations.
-From LC Require Import Base BaseFacts Tree Fp FloatDec Api ScanAction Tokens Lexer Parser LiteralFacts RoundSpec.
+From LC Require Import Base BaseFacts Tree Fp FloatDec Api ScanAction Tokens Lexer Parser LiteralFacts RoundSpec RoundFacts FloatStable FloatStableG FloatLexeme.
 Local Open Scope Z_scope.
 
 (* decimal and octal literals, with or without the L / LL suffix *)
@@ -181,3 +181,42 @@ Example C08_decimal_examples :
   b64_of_decimal false [9;0;0;7;1;9;9;2;5;4;7;4;0;9;9;3] 0 = 4845873199050653696 /\
   b64_of_decimal true [1; 7; 9; 7; 6; 9; 3; 1; 3; 4; 8; 6; 2; 3; 1; 5; 9] 292 = two63 + b64_inf_bits.
 Proof. exact decimal_examples. Qed.
+
+
+(* ------------------------------------------------------------------------------------------------------- *)
+(* every float lexeme: the token is the correctly rounded double, or the literal is rejected (FloatLexeme.v)  *)
+(* ------------------------------------------------------------------------------------------------------- *)
+
+(* the float lexemes of the scanner's pattern, as an explicit decomposition: sign, integer digits I, an optional point with
+   fraction digits F, an optional exponent (the second alternative of the pattern has no point and needs the exponent):
+   float_lexeme sg I hasdot F ex.  Through the whole parsing layer of strtod (white space, sign, inf/nan/hex dispatch, digit
+   spans, saturated exponent) the value is that of the decimal-to-binary core on the digits I ++ F with exponent
+   exp - |F|; a lexeme without any digit (".", "-.e5") is +0.0 *)
+Theorem C08_strtod_of_float_lexeme : forall sg I hasdot F ex, float_lexeme sg I hasdot F ex -> Z.abs (exp_val ex) <= 1000 ->
+  strtod_bits (lexeme_of sg I hasdot F ex) =
+  match I ++ F with
+  | [] => 0
+  | _ => b64_of_decimal (neg3 sg) (I ++ F) (exp_val ex - lenZ F)
+  end.
+Proof. exact strtod_lexeme. Qed.
+Print Assumptions C08_strtod_of_float_lexeme.
+
+(* the token: within the window the correct-rounding theorems cover (at most 800 significant digits, decimal exponent of
+   the last digit >= -400, digits + exponent <= 400) every float lexeme whose value is zero or at least 2^-1078 is either
+   REJECTED - and then its value is at least DBL_MAX plus half an ulp - or stored as a finite double with the lexeme's sign
+   that is the round-half-even image of the denoted decimal (rounded_to: on the 53-bit / denormal grid, ties to even) and
+   such that no double is nearer *)
+Theorem C08_float_lexeme_token : forall sg I hasdot F ex,
+  float_lexeme sg I hasdot F ex -> in_window I F ex ->
+  let D := I ++ F in let E := exp_val ex - lenZ F in let R := val_be 10 D * p10 E * T in
+  let lexeme := lexeme_of sg I hasdot F ex in
+  (D = [] -> numeric_token strtod_bits AFloat lexeme = Some (TkFloat 0)) /\
+  (D <> [] -> val_be 10 D = 0 -> numeric_token strtod_bits AFloat lexeme = Some (TkFloat (sgn_bits (neg3 sg)))) /\
+  (D <> [] -> 10 ^ 400 <= 16 * R ->
+     (numeric_token strtod_bits AFloat lexeme = None /\ strtod_bits lexeme = sgn_bits (neg3 sg) + b64_inf_bits /\
+      (2 ^ 54 - 1) * 2 ^ 970 * T * 10 ^ 400 <= R) \/
+     (exists b, numeric_token strtod_bits AFloat lexeme = Some (TkFloat b) /\ b = strtod_bits lexeme /\
+                b64_is_finite b = true /\ sign_text b = sgn_text (neg3 sg) /\ rounded_to b R /\
+                forall m k, 0 <= m < two53 -> 0 <= k -> Z.abs (Vof b * 10 ^ 400 - R) <= Z.abs (m * 2 ^ k * 10 ^ 400 - R))).
+Proof. exact FloatLexeme.C08_float_lexeme_token. Qed.
+Print Assumptions C08_float_lexeme_token.
